@@ -6,7 +6,8 @@ PROP = dict(
     technique='bounded-exhaustive enumeration (parallel_for grid; every interleaving at the hand-over points on a deterministic scheduler) + rapidcheck-generated thread / Semaphore / Condition scenarios under seeded timing jitter, ASan',
     rule=("(pfor) EVERY call parallel_for(i0, i1, f, n) with -3 <= i0, i1 <= 40 and 1 <= n <= 12 (23232 calls, real threads): a guarded array of "
           "atomic counters (8 extra indices on both sides + an 'outside' counter) must be exactly 1 on [i0,i1) and 0 elsewhere when read immediately "
-          "after parallel_for returns; (pfor_sampled) rapidcheck ranges up to 20000 (quick) / 10^6 (thorough) indices, 1..64 threads, one slow index, "
+          "after parallel_for returns; (pfor_sampled) rapidcheck ranges up to 20000 (quick) / 10^6 (thorough) indices, 1..64 or 65..300 threads, one slow index, "
+          "plus a fixed grid of wide calls: n in {63,64,65,66,100,127,128,129,200,257} x range lengths n-1, n, n+1, 2n-1, 2n+1, 3n+7 x i0 in {0,-5}, "
           "repeated under seeded jitter; (thread) rapidcheck scenarios: subclassed / lambda / functor Thread, ThreadGroup of 1-8, parallel_invoke with "
           "2/3/4 functions x body {empty, 8 plain stores, spin, sleep}, each repeated 20x (quick) / 100x (thorough) with timing jitter (0-200 us sleeps "
           "or yields, hashed from the jitter seed) injected at the library's hand-over points through the ASL_VERIF hook: after join() each body ran "
